@@ -5,28 +5,36 @@
 (* the model represents by their lengths.  ORIGINAL = TRUE models the decoder     *)
 (* constructor as first found (it appended its BUILD step to the list it was     *)
 (* given).  hist records the uses; TLC enumerates every history up to MaxLen.    *)
+(* shared is state that lives in the library module rather than in the           *)
+(* configuration (the request object a transform starts from): SHARED = TRUE      *)
+(* models a transform that starts from one module-level request and so carries    *)
+(* the header / parameter keys of every earlier transform - the results of later  *)
+(* uses then depend on the history although the configuration never changes.      *)
 EXTENDS Naturals, Sequences, FiniteSets, TLC
-CONSTANTS Uses, MaxLen, ORIGINAL
-VARIABLES hist, obs, cached, result
-vars == <<hist, obs, cached, result>>
+CONSTANTS Uses, MaxLen, ORIGINAL, SHARED
+VARIABLES hist, obs, cached, result, shared
+vars == <<hist, obs, cached, result, shared>>
+Keys(u) == CASE u = "transform_get" -> {"Cookie"} [] u = "transform_post" -> {"id", "Content-Type"} [] OTHER -> {}
 Obs0 == [recover |-> 1, request |-> 3, postreq |-> 4]           \* lengths of the three decoded step lists
 ViewOf(u) == CASE u = "view_settings" -> "settings" [] u = "view_settings_by_index" -> "settings_by_index"
                [] u = "view_raw" -> "raw" [] u = "view_raw_by_index" -> "raw_by_index" [] OTHER -> "settings"
 \* what a use returns, as a function of what it can observe of the configuration
-ResultOf(u, o) == CASE u \in {"profile"} -> <<"profile", o.recover, o.request, o.postreq>>
+ResultOf(u, o, s) == CASE u \in {"profile"} -> <<"profile", o.recover, o.request, o.postreq>>
                     [] u \in {"decoder_rsa", "decoder_aes", "decoder_rand", "client"} -> <<"decoder", o.recover + 1, o.request, o.postreq>>
-                    [] u \in {"transform_get", "recover_get", "transform_post", "session_rsa"} -> <<"traffic", o.request, o.postreq>>
+                    [] u \in {"transform_get", "transform_post"} -> <<"traffic", o.request, o.postreq, s \cup Keys(u)>>
+                    [] u \in {"recover_get", "session_rsa"} -> <<"traffic", o.request, o.postreq>>
                     [] u = "mutate" -> <<"TypeError">>
                     [] OTHER -> <<"view", o.recover, o.request, o.postreq>>
-Init == hist = <<>> /\ obs = Obs0 /\ cached = {} /\ result = <<>>
+Init == hist = <<>> /\ obs = Obs0 /\ cached = {} /\ result = <<>> /\ shared = {}
 Use(u) == /\ Len(hist) < MaxLen
           /\ hist' = Append(hist, u)
-          /\ result' = ResultOf(u, obs)
+          /\ result' = ResultOf(u, obs, shared)
+          /\ shared' = IF SHARED THEN shared \cup Keys(u) ELSE shared
           /\ cached' = cached \cup {ViewOf(u)}
           /\ obs' = IF ORIGINAL /\ u \in {"decoder_rsa", "decoder_aes", "decoder_rand", "client", "transform_get", "recover_get", "transform_post", "session_rsa"}
                     THEN [obs EXCEPT !.recover = @ + 1] ELSE obs
 Next == \E u \in Uses : Use(u)
 Spec == Init /\ [][Next]_vars
 Immutable == [][obs' = obs]_vars
-HistoryIndependent == hist # <<>> => result = ResultOf(hist[Len(hist)], Obs0)
+HistoryIndependent == hist # <<>> => result = ResultOf(hist[Len(hist)], Obs0, {})
 =============================================================================
